@@ -323,8 +323,10 @@ func (fr *Frame) callStatic(v ssa.Value, fn *ssa.Function, args []Term, cc *ssa.
 			rt = sig.Recv().Type()
 		}
 		fr.calleeTypeArgs = typeArgsOf(fn)
+		fr.calleeFn = fn
 		res := fr.applyContract(c, sig, rt, args, ins, hint)
 		fr.calleeTypeArgs = nil
+		fr.calleeFn = nil
 		fr.setResults(v, res, sig)
 		return
 	}
@@ -549,6 +551,39 @@ func (fr *Frame) applyContract(c *Contract, sig *types.Signature, recvT types.Ty
 	if !c.Pure {
 		fr.cur.Havoc("clk", SInt) // the callee may allocate
 	}
+	// ghost updates "at entry" happen before anything the body does (so a later update inside the body, seen here only
+	// as a havoc of that ghost, is not overwritten by them)
+	{
+		envE := fr.specEnv(fr.cur, pre)
+		envE.noLookup = true
+		fr.bindParams(envE, c, sig, recvT, args)
+		for _, g := range c.Ghosts {
+			if g.At == "entry" {
+				fr.applyGhost(envE, g)
+			}
+		}
+	}
+	touched := map[string]bool{}
+	if fr.calleeFn != nil && fr.calleeFn.Blocks != nil {
+		vc.sess.ghostsTouched(fr.calleeFn, 0, touched, map[*ssa.Function]bool{})
+	}
+	if c.ModAll && !c.Extern && fr.calleeFn != nil && fr.calleeFn.Blocks != nil {
+		// "modifies *" of a function with a body: the ghost variables that contracts of the functions it calls update
+		// change as well (a ghost is otherwise preserved by a call); the contract's own ghost updates are applied below
+		genv := fr.specEnv(fr.cur, fr.cur)
+		for _, g := range sortedBool(touched) {
+			if g == "LockW" || g == "LockR" {
+				// lock state: a function returns holding the locks it was entered with (its own contract says otherwise
+				// where it does not)
+				continue
+			}
+			if gv := vc.sess.specs.Ghosts[g]; gv != nil {
+				if _, srt, err := genv.ghostType(gv); err == nil {
+					fr.cur.Havoc("ghost_"+g, srt)
+				}
+			}
+		}
+	}
 	var targets []modTarget
 	for _, m := range c.Modifies {
 		ts, err := env.evalModTargets(m)
@@ -594,7 +629,15 @@ func (fr *Frame) applyContract(c *Contract, sig *types.Signature, recvT types.Ty
 		}
 	}
 	for _, g := range c.Ghosts {
-		fr.applyGhost(env2, g)
+		if g.At != "entry" {
+			fr.applyGhost(env2, g)
+		} else if !touched[g.Var] {
+			// set at entry and not updated by anything the body calls: still that value (whatever the modifies list said)
+			envE := fr.specEnv(fr.cur, pre)
+			envE.noLookup = true
+			fr.bindParams(envE, c, sig, recvT, args)
+			fr.applyGhost(envE, g)
+		}
 	}
 	if c.Pure {
 		for i := range res {
@@ -1296,5 +1339,65 @@ func (fr *Frame) runCallbacks(c *Contract, sig *types.Signature, recvT types.Typ
 		}
 		fr.cur = fr.cur.HavocAll(fr.keepList())
 		vc.assumes["callback "+name+" of "+c.Key+": the closure body is checked for one invocation in an arbitrary state; its effects are discarded (any number of invocations)"] = true
+	}
+}
+
+// ghostsTouched collects the ghost variables updated by the contracts of the functions fn calls (directly, or through
+// callees that have no contract of their own and are therefore looked into, up to a small depth).
+func (s *Session) ghostsTouched(fn *ssa.Function, depth int, out map[string]bool, seen map[*ssa.Function]bool) {
+	if fn == nil || fn.Blocks == nil || depth > 4 || seen[fn] {
+		return
+	}
+	seen[fn] = true
+	addC := func(c *Contract) {
+		for _, g := range c.Ghosts {
+			out[g.Var] = true
+		}
+	}
+	for _, af := range fn.AnonFuncs {
+		s.ghostsTouched(af, depth, out, seen)
+	}
+	for _, b := range fn.Blocks {
+		for _, ins := range b.Instrs {
+			ci, ok := ins.(ssa.CallInstruction)
+			if !ok {
+				continue
+			}
+			cc := ci.Common()
+			if cc.IsInvoke() {
+				pkg, key := methodKey(cc.Value.Type(), cc.Method.Name())
+				if c := s.specs.Contracts[pkg+"::"+key]; c != nil {
+					addC(c)
+				}
+				continue
+			}
+			if g := cc.StaticCallee(); g != nil {
+				if c := s.contractFor(g); c != nil {
+					addC(c)
+					if c.ModAll && !c.Extern {
+						s.ghostsTouched(g, depth+1, out, seen)
+					}
+				} else {
+					s.ghostsTouched(g, depth+1, out, seen)
+				}
+				continue
+			}
+			// dynamic call: contracts attached to the field or the named function type
+			if k := fieldCallKey(cc.Value); k != "" {
+				rest := strings.TrimPrefix(k, "fieldcall:")
+				if i := strings.LastIndex(rest, "."); i > 0 {
+					if j := strings.LastIndex(rest[:i], "."); j > 0 {
+						if c := s.specs.Contracts[rest[:j]+"::fieldcall."+rest[j+1:i]+"_"+rest[i+1:]]; c != nil {
+							addC(c)
+						}
+					}
+				}
+			}
+			if n, ok := types.Unalias(cc.Value.Type()).(*types.Named); ok && n.Obj().Pkg() != nil {
+				if c := s.specs.Contracts[n.Obj().Pkg().Path()+"::functype."+n.Obj().Name()]; c != nil {
+					addC(c)
+				}
+			}
+		}
 	}
 }
